@@ -227,6 +227,13 @@ func translateIndex(ctx context.Context, indexPath string, primary primary.Prima
 		return fmt.Errorf("cannot move old index files: %w", err)
 	}
 
+	// Index files that an interrupted GC left behind below the first file of
+	// the old index were not moved. Remove them, so that they are not taken
+	// for files of the new index.
+	if err = index.RemoveLeftoverFiles(indexPath); err != nil {
+		return fmt.Errorf("cannot remove leftover index files: %w", err)
+	}
+
 	vhook.Point("translate.oldMoved")
 	// Move the new index file from the temp directory to the index directory.
 	if err = index.MoveFiles(newIndexPath, indexDir); err != nil {
